@@ -610,6 +610,16 @@ def prove(assumptions, goal, timeout_s=10, opts=None, rounds=2):
         if _try_uf_abstraction(formulas, min(timeout_s, (opts or {}).get("uf_abstraction_timeout", 5))):
             return Verdict(PROVED, "z3-5.1(nonlinear-terms-as-UF)", (time.time() - t0) * 1000)
     if (opts or {}).get("abstract_nl"):
+        # sound accelerators: products / quotients of unknowns generalised to uninterpreted functions (an `unsat` of the
+        # generalisation is an `unsat` of the original); two encodings, the cheaper one first when the caller expects the
+        # goal to follow by linear arithmetic + congruence + Σ-extensionality only (abstract_only)
+        only = (opts or {}).get("abstract_only")
+        if only:
+            if _try_uf_abstraction(formulas, min(timeout_s, 5)):
+                return Verdict(PROVED, "z3-5.1(nonlinear-terms-as-UF)", (time.time() - t0) * 1000)
+            # give up at once (UNDECIDED, never a verdict) and let the replay decide
+            return Verdict(UNDECIDED, "z3-5.1(nonlinear-terms-as-UF)", (time.time() - t0) * 1000,
+                           reason="not established with products as uninterpreted functions (abstract_only)")
         try:
             fa = generalise_products(formulas)
             s0 = z3.Solver()
